@@ -367,6 +367,29 @@ def run(res, tier):
                                'acquisitions do not return by their deadline' % (g.q, c['ch'][0].text(30), c.type()))
     if n_cu < 1:
         raise AnalysisBroken('CHRONO-UNIT: no std::chrono duration built from a run-time value found in WaitCondition')
+    # ---- WAKE-COVERAGE: whoever is waiting gets a wake-up, under either preference
+    fn_ = fx.fn1(RW + '::NotifySomeWaitingThreads') if 'RW' in globals() else fx.fn1('muscle::ReaderWriterMutex::NotifySomeWaitingThreads')
+    rets = [r for r in fn_.walk() if r['k'] == 'ReturnStmt']
+    quiet = [r for r in rets if not any(x.is_call() and re.search(r'::Notify\w+$', x.get('q') or '') for x in r.walk())]
+    if not rets or not quiet:
+        raise AnalysisBroken('NOTIFY: NotifySomeWaitingThreads: no return without a notification found')
+    badq = None
+    for r in quiet:
+        paths, complete = C.paths_between(fn_, (fn_.entry, -1), P.pos_of(fn_, r))
+        if not complete:
+            badq = badq or 'too many paths'
+        for asg in paths:
+            empty = set()
+            for (cid, truth) in asg.items():
+                for (cn, t) in G.atoms_of_cond(fn_, fn_.nodes[cid], truth):
+                    em = A.emptiness(cn, t)
+                    if em is not None and em[1] is True and em[0] is not None:
+                        empty.add(A.strip_casts(em[0]).get('n'))
+            if not (set(['_waitingWriterThreads', '_waitingReaderThreads']) <= empty):
+                badq = badq or ', '.join('%s=%s' % (fn_.nodes[k].text(30), v) for k, v in asg.items())
+    res.ob('NOTIFY', fn_.where(quiet[0]), 'NotifySomeWaitingThreads wakes nobody only when no reader and no writer is waiting', badq is None, function=fn_.q, key='NOTIFY|%s|wake-coverage' % fn_.q,
+           message='NotifySomeWaitingThreads can return without notifying anybody although a thread is waiting (decisions: %s): with preferWriters=false and only writers parked, no release of the '
+                   'lock ever wakes them — a writer waits forever on a free lock' % badq)
     res.explanation = ('Static decision of the reader/writer mutex\'s structural invariants: %d accesses to the state tables all under _stateMutex (must-hold lock sets, helper preconditions inferred); the '
                        'admission tests contain the exclusion conjuncts; each of the %d registrations of a new executing thread is dominated by the true edge of the matching test under the same guard object; '
                        'waits happen with the lock released, inside loops that re-test admission; every departure from the executing table or the waiter tables can reach a notify routine in the same critical '
